@@ -38,6 +38,12 @@ def tag_by_model(g, chains, with_untagged=True, bo_start=0):
         last_scaffold = [x for k, x in first_chain.order if k == "s"][-1]
         out.add_seg("u1", "ACGTAC", [("LN", "i", "6"), ("SN", "Z", "hU#1#c"), ("SO", "i", "500"), ("SR", "i", "3"), ("BO", "i", "-1"), ("NO", "i", "-1")])
         out.add_link(last_scaffold, "+", "u1", "+", "0M")
+        # a node order beyond 16 bits (a bubble with very many alleles), in the first bubble of chr1
+        first_bubble = [x for k, x in first_chain.order if k == "b" and len(x) >= 2]
+        if first_bubble:
+            bo_b = tags[sorted(first_bubble[0])[0]][0]
+            out.add_seg("n70k", "ACGT", [("LN", "i", "4"), ("SN", "Z", "hN#1#c"), ("SO", "i", "900"), ("SR", "i", "4"), ("BO", "i", str(bo_b)), ("NO", "i", "70001")])
+            out.add_link([x for k, x in first_chain.order if k == "s"][0], "+", "n70k", "+", "0M")
     return out
 
 
